@@ -372,6 +372,8 @@ class Gen:
             self.features.add("fault_any_position")
             return ["fault", self.fault_tag]
         if ty == ANY:
+            if self.o.valueless_loops and depth < self.o.max_depth and self.budget > 0 and self.r.random() < self.o.valueless_loops:
+                return self.valueless_construct(env, depth)
             ty = self.r.choice([NUM, BOOL, ARR, ANY])
             if ty == ANY:
                 return self.lit(ANY)
@@ -390,6 +392,35 @@ class Gen:
             return ["bin", "select", ["arr", [self.leaf(env, ty), ["fault", self.fault_tag], self.leaf(env, ty)]], ["num", 0]]
         self.budget -= 1
         return self.construct(env, depth, ty)
+
+    def valueless_construct(self, env, depth):
+        """a construct used as an operand whose block ends in a statement that leaves no value: it must yield nil"""
+        self.features.add("valueless_operand")
+        self.budget -= 1
+        d = depth + 1
+        r = self.r.random()
+        tail = [["lset", self.fresh("_v"), self.lit(NUM)]]
+        def blk(pre=None):
+            b = self.block(env, d, None, "skip", allow_early=False, named_ok=False, pre=pre, n=self.r.randint(0, 2))
+            if b and b[-1][0] == "t" and b[-1][2] is None:
+                b.pop()
+            if not b or b[-1][0] == "t" or self.r.random() < 0.7:
+                b = b + tail
+            return b
+        if r < 0.3:
+            return ["call", blk()]
+        if r < 0.45:
+            return ["if", self.expr(env, d, BOOL), blk(), blk()]
+        if r < 0.65:
+            return ["forEach", blk({"_x": NUM, "_foreachindex": NUM}), self.nonempty_arr(env, d)]
+        if r < 0.85:
+            var = self.fresh("_i")
+            a = self.r.randint(0, 2)
+            env.loop_vars.add(var)
+            body = blk({var: NUM})
+            env.loop_vars.discard(var)
+            return ["for", var, ["num", a], ["num", a + self.r.randint(0, 2)], None, body]
+        return ["try", blk(), blk({"_exception": NUM})]
 
     def leaf(self, env, ty):
         vs = env.vars_of(ty)
